@@ -5,7 +5,7 @@ CONSTANTS
   Values = {0, 1, 2}
   CfgSet <- MCCfgOne
   BuilderSet = {"std", "plus", "half"}
-  AnswerSet <- MCAnswersSingle
+  AnswerSet <- MCAnswersLean
   Headers = {1, 2}
   MaxRounds = 1
   Keys = {1}
